@@ -116,13 +116,6 @@ CONTRACTS = {
         ensures=["fixlog == old(fixlog) + [oViolation]"],
         trusted="abstract contract of a virtual method: what a fix does to the tokens of its own violation is the subject of C01-C03, not of the gating proofs",
     ),
-    "vsg.vhdlFile.vhdlFile.vhdlFile.update": dict(
-        types={"lUpdates": "list[%s]" % VIOL, "bUpdateMap": "bool"},
-        modifies=["ghost:oplog"],
-        ensures=["oplog == old(oplog) + ['U']"],
-        trusted="stub for the gating proofs only; the real contract of vhdlFile.update is verified in contracts/vhdlfile.py",
-        stub=True,
-    ),
     "vsg.vhdlFile.vhdlFile.vhdlFile.set_token_indent": dict(modifies=["ghost:oplog"], ensures=["oplog == old(oplog) + ['indent']"], trusted="ghost log stub"),
     "vsg.vhdlFile.vhdlFile.vhdlFile.fix_blank_lines": dict(modifies=["ghost:oplog"], ensures=["oplog == old(oplog) + ['blank']"], trusted="ghost log stub"),
     "vsg.vhdlFile.vhdlFile.vhdlFile.fix_trailing_whitespace": dict(modifies=["ghost:oplog"], ensures=["oplog == old(oplog) + ['trail']"], trusted="ghost log stub"),
